@@ -113,7 +113,8 @@ pub(crate) fn access_with_integer<Data: GarnishData>(
                     Ok(None)
                 })?
                 .0),
-                t => state_error(format!("Invalid value for slice {:?}", t)),
+                // a slice of a value that cannot be indexed this way: no result is defined, the caller defers
+                _ => Err(RuntimeError::unsupported_types()),
             }
         }
         GarnishDataType::Concatenation => index_concatenation_for(this, value, index),
@@ -308,7 +309,8 @@ pub(crate) fn access_with_symbol<Data: GarnishData>(
 
                     Ok(found)
                 }
-                t => state_error(format!("Invalid value for slice {:?}", t)),
+                // a slice of a value that cannot be indexed this way: no result is defined, the caller defers
+                _ => Err(RuntimeError::unsupported_types()),
             }
         }
         GarnishDataType::Concatenation => {
